@@ -418,7 +418,9 @@ def program_strategy():
         if dup in ("clone", "clone-framer"):
             clone = max(clone, 2)
         return {"nf": nf, "frames": frames[:nf], "dup": dup, "clone": clone,
-                "nlogs": nlogs, "duplog": duplog, "bits": seedbits, "houses": houses}
+                "nlogs": nlogs, "duplog": duplog, "bits": seedbits, "houses": houses,
+                # nested insular clones under two (or more) different main framers: every generated name is distinct
+                "nest": (seedbits >> 5) % 3 if dup in (None, "house", "frame") else 0}
 
     return st.builds(build, nframers, st.lists(st.integers(1, 5), min_size=6, max_size=6),
                      st.sampled_from([None, None, None, None, "framer", "frame", "framer-logger", "clone",
@@ -443,8 +445,14 @@ def render(prog):
             dups.add("house")
         # every house repeats the same framer / frame / log names: houses are separate namespaces
         lines += ["house %s" % hname, ""]
+        nest = prog.get("nest", 0)
         if nclones:   # a moot framer to be cloned
             lines += ["framer orig be moot", "  frame m0", "    go next", "  frame m1", ""]
+        if nest:      # a moot that itself holds an insular clone of another moot (and, nest 2, that one of a third)
+            lines += ["framer part be moot", "  frame p0", "    aux leaf as mine", "    go next", "  frame p1", "",
+                      "framer leaf be moot", "  frame e0"] + (["    aux tip as mine"] if nest == 2 else []) + ["", ]
+            if nest == 2:
+                lines += ["framer tip be moot", "  frame t0", ""]
         names = ["f%d" % i for i in range(nf)]
         if dup == "framer":
             names[-1] = names[bits % (nf - 1)]
@@ -472,6 +480,8 @@ def render(prog):
                             tag = "c0"
                             dups.add("clone")
                         lines.append("    aux orig as %s" % tag)
+                if nest and j == 0 and fname not in names[:i]:
+                    lines.append("    aux part as mine")
                 if j + 1 < len(fnames):
                     lines.append("    go next")
             lines.append("")
@@ -538,7 +548,9 @@ def run_program(prog):
             nclone = len([f for f in house.framers if not f.original])
             if nclone:
                 labels.add("flo:clones")
-    nontrivial = prog["nf"] >= 3 and bool(dups or prog["clone"] > 0 or prog.get("houses", 1) > 1)
+    if prog.get("nest"):
+        labels.add("flo:nested-insular-clones-under-%d-framers" % min(prog["nf"], 3))
+    nontrivial = prog["nf"] >= 3 and bool(dups or prog["clone"] > 0 or prog.get("houses", 1) > 1 or prog.get("nest"))
     seen, out = set(), []
     for s, w in fails:
         if s not in seen:
